@@ -310,10 +310,10 @@ func runWire(c *WireCase) (interface{}, error) {
 		} else {
 			b = biscuit.NewBuilder(priv, biscuit.WithSymbols(&base))
 		}
-		unmarshal = func(ser []byte) (*biscuit.Biscuit, error) {
-			t := datalog.SymbolTable(append([]string{}, c.Base...))
-			return (&biscuit.Unmarshaler{Symbols: &t}).Unmarshal(ser)
-		}
+		// ONE Unmarshaler value serves every reload of this case (and an unrelated token, below): its table is the caller's
+		ut := datalog.SymbolTable(append([]string{}, c.Base...))
+		um := &biscuit.Unmarshaler{Symbols: &ut}
+		unmarshal = func(ser []byte) (*biscuit.Biscuit, error) { return um.Unmarshal(ser) }
 	case c.Rid != nil:
 		b = biscuit.NewBuilder(priv, biscuit.WithRootKeyID(*c.Rid))
 	default:
@@ -432,6 +432,21 @@ func runWire(c *WireCase) (interface{}, error) {
 		out["nchecks"] = nc
 		if after := snapshot(re, pub); after != before {
 			rt = append(rt, "content / revocation ids / root key id / authorization differ after Unmarshal")
+		}
+		if c.Base != nil {
+			// an unrelated token over the same base table goes through the SAME Unmarshaler: the token reloaded before stays as it was
+			s0 := snapshot(re, pub)
+			ob2 := datalog.SymbolTable(append([]string{}, c.Base...))
+			ob := biscuit.NewBuilder(priv, biscuit.WithSymbols(&ob2))
+			ob.AddAuthorityFact(biscuit.Fact{Predicate: biscuit.Predicate{Name: "unrelated_other_token", IDs: []biscuit.Term{biscuit.String("other_fresh_symbol")}}})
+			if ot, e := ob.Build(); e == nil {
+				if oser, e := ot.Serialize(); e == nil {
+					_, _ = unmarshal(oser)
+				}
+			}
+			if snapshot(re, pub) != s0 {
+				rt = append(rt, "a reloaded token changed when ANOTHER token was unmarshalled through the same Unmarshaler")
+			}
 		}
 		ser2, err := re.Serialize()
 		if err != nil || !bytes.Equal(ser, ser2) {
